@@ -36,11 +36,31 @@ def tdefs(t):
 P = dict(
     registered=True,
     level="exploration",
-    level_text="(filled in below)",
-    level_note="trusts glibc 2.36 libm / libstdc++ 12 as oracle",
-    technique="runtime differential monitoring vs glibc libm",
+    level_text=("Differential runtime monitoring of the run-time path of etl <cmath>, etl::complex, lerp/hypot/midpoint against glibc libm / "
+                "libstdc++: every one-argument function on a stratified 2^24 sweep of float bit patterns per function (quick) or on ALL 2^32 "
+                "patterns for the exact/classification/integer-returning functions and 2^28 for the approximate ones (thorough); doubles on "
+                "every one of the 2x2048 sign/exponent blocks x boundary mantissas + seeded random; two/three-argument functions on a "
+                "~560^2 boundary grid (x 21 third arguments) + seeded random pairs; complex functions on a moderate-magnitude grid, a "
+                "special-value grid and seeded random; an ASan+UBSan stratum (float-cast-overflow, shifts) over the boundary plans with a "
+                "breadcrumb before every call. Exact set: bit-identical (both-NaN relaxation, sign-bit functions also on the NaN sign); "
+                "approximate set: NaN/inf/signed-zero class equal and ulp distance within the committed table harness/C16_bounds.json. "
+                "Held means no divergence beyond the listed open findings on the executions counted in the evidence; it is not a proof "
+                "for the double patterns that were not sampled, and the constant-evaluation path is property C13's subject."),
+    level_note=("trusts glibc 2.36 libm, libgcc complex arithmetic and libstdc++ 12 (std::lerp, std::midpoint, std::hypot(x,y,z), std::beta, "
+                "std::complex) as oracle; most etl functions forward to the same compiler builtins at run time, so for them the check "
+                "establishes that the forwarding is the right one for every argument class, not the accuracy of glibc"),
+    technique="runtime differential monitoring vs glibc libm / libstdc++ (exhaustive float sweeps, boundary grids, seeded random) + ASan/UBSan stratum",
     design_ref="DESIGN.md section 4 C16, section 3.8",
-    rule="(filled in below)",
+    rule=("one evaluation = one etl call whose result was compared with the reference for the same bit pattern(s). Enumerated part: "
+          "case = (function, sign/exponent block [, mantissa chunk]) for one-argument functions, (function, grid row) for two/three-argument "
+          "functions, (function, real part) for complex functions; blocks/rows are pairwise disjoint, so distinct_nontrivial = number of "
+          "distinct (function, argument bit pattern tuple) in the enumerated part (counted per block); the seeded random part is counted "
+          "in evaluations but NOT in distinct_nontrivial because it may repeat enumerated patterns. Every case is non-trivial (a concrete "
+          "argument tuple evaluated on both sides); calls outside the domain where C defines the result (lrint of NaN/inf/|x|>=2^63, beta "
+          "outside [2^-4,16]^2, lerp/polar with non-finite arguments) are skipped and not counted."),
+    exhaustive_note=("true when all shards finished: the enumerated part is a complete enumeration of its stated finite scope - thorough tier: "
+                     "all 2^32 float patterns for floor ceil trunc round rint fabs abs lrint llrint isnan isinf isfinite signbit; quick tier and "
+                     "all other functions: the stated stratified plans (every exponent x the fixed mantissa plan), NOT all patterns"),
     units=[
         Unit("C16_unary_float", "harness/C16_unary.cpp", defs=tdefs("float"),
              flavours={"quick": ["plain-cc", "asan-cc"], "thorough": ["plain-cc", "asan-cc"]}, shards={"quick": 16, "thorough": 16}),
@@ -55,6 +75,8 @@ P = dict(
         Unit("C16_complex_double", "harness/C16_complex.cpp", defs=tdefs("double"),
              flavours={"quick": ["plain-cc", "asan-cc"], "thorough": ["plain-cc", "asan-cc"]}, shards={"quick": 8, "thorough": 16}),
     ],
-    floor={"quick": 1000000, "thorough": 10000000},
-    assumptions=[],
+    floor={"quick": 500000000, "thorough": 50000000000},
+    assumptions=["glibc 2.36 libm and libgcc/libstdc++ 12 are correct references (exact set: correctly rounded by IEEE 754 definition; approximate set: within a few ulp)",
+                 "default rounding mode (round-to-nearest-even) and default FP environment; -ffp-contract=off, no -ffast-math",
+                 "x86-64 LP64: long and long long are 64 bit (lrint/llrint domain)"],
 )
